@@ -32,7 +32,7 @@ def containsAny (subs : List String) (u : List Char) : Bool := subs.any (fun s =
 /-- what the commission decorator's type switch looks at (raw sdk.Dec / sdk.Int values) -/
 inductive Body where
   | other
-  | createVal (rate : Int)                     -- MsgCreateValidator.Commission.Rate
+  | createVal (rate : Int) (val : String) (value : Int)  -- MsgCreateValidator: Commission.Rate, ValidatorAddress, Value (self-delegation)
   | editVal (rate : Option Int)                -- MsgEditValidator.CommissionRate (nil = none)
   | delegate (val : String) (amt : Int)        -- MsgDelegate
   | redelegate (src dst : String) (amt : Int)  -- MsgBeginRedelegate
@@ -215,7 +215,7 @@ def admitIf (ok : M Bool) (p' : Pending) : M (Option Pending) := ok.map (fun b =
     `.error` = panic -/
 def validateBody (cfg : ComCfg) (env : StakeEnv) (p : Pending) : Body → M (Option Pending)
   | .other => .ok (some p)
-  | .createVal r => .ok (if r < cfg.minCommission then none else some p)
+  | .createVal r _ _ => .ok (if r < cfg.minCommission then none else some p)
   | .editVal none => .ok (some p)
   | .editVal (some r) => .ok (if r < cfg.minCommission then none else some p)
   | .delegate v amt =>
